@@ -98,6 +98,40 @@ static void item_band (long it, void *arg)
 	vf_stat_add (st_trans, (long) 4096 * BAND);
 }
 
+/* critical states: the returned value is floor(s'*maxv/(2^31-1)) computed in double precision, so the only places where
+ * an implementation can differ from the RFC expression (or the RFC expression from the exact floor) are the states whose
+ * product s'*maxv lies next to a multiple of 2^31-1. For EVERY maxv the library can pass (1 .. 255*50000) and every
+ * residue rho in {0,1,2,3,M-4,..,M-1}: s' = rho * maxv^-1 mod M, s = s' * 16807^-1 mod M. item = block of 8192 maxv */
+static uint64_t modinv (uint64_t a) { return modpow (a, M31 - 2); }
+static uint64_t g_inv_a;
+static void item_crit (long it, void *arg)
+{
+	uint64_t mv, lo = (uint64_t) it * 8192 + 1, hi = lo + 8192;
+	long n = 0;
+	int q;
+	(void) arg;
+	vf_slot_set_prop ("C19");
+	snprintf (vf_slot (), VF_SLOT_LEN, "critical maxv=%llu..", (unsigned long long) lo);
+	for (mv = lo; mv < hi && mv <= 12750000; mv++) {
+		uint64_t inv = modinv (mv % M31);
+		for (q = 0; q < 8; q++) {
+			uint64_t rho = q < 4 ? (uint64_t) q : M31 - (uint64_t) (8 - q), sp = (rho % M31) * inv % M31, s, v, rfc;
+			if (sp == 0) continue;
+			s = sp * g_inv_a % M31;
+			of_seed = s;
+			v = of_rfc5170_rand (mv);
+			n++;
+			rfc = (uint64_t) ((double) sp * (double) mv / (double) 0x7FFFFFFF);
+			if (of_seed != sp) { bad ("wrong-next-state", s, mv, of_seed, sp); return; }
+			if (v != rfc) { bad ("value-differs-from-rfc-expression", s, mv, v, rfc); return; }
+			if (v >= mv) { bad ("value-out-of-range", s, mv, v, mv - 1); return; }
+			if ((unsigned __int128) sp * mv < ((unsigned __int128) 1 << 53) && v != (uint64_t) (((unsigned __int128) sp * mv) / M31)) { bad ("value-differs-from-exact-floor", s, mv, v, (uint64_t) (((unsigned __int128) sp * mv) / M31)); return; }
+		}
+	}
+	vf_heartbeat ();
+	vf_stat_add (st_trans, n);
+}
+
 /* seeding windows: item = window index */
 static const struct { uint64_t lo, hi; uint64_t stride; } WIN[] = {
 	{0, 1 << 16, 1}, {M31 - 1 - (1 << 16), M31 + (1 << 16), 1}, {((uint64_t) 1 << 32) - (1 << 16), ((uint64_t) 1 << 32) + (1 << 16), 1},
@@ -173,6 +207,10 @@ int main (int argc, char **argv)
 		band[4096] = M31 - 1; band[4097] = (uint64_t) 1 << 30; band[4098] = ((uint64_t) 1 << 30) + 1;
 		if (s != 1) bad ("reference-cycle", 0, 0, s, 1);
 		vf_pool_run (nblk, item_band, NULL, 0);
+		g_inv_a = modinv (16807);
+		if (g_inv_a * 16807 % M31 != 1) bad ("reference-inverse", 0, 0, g_inv_a, 0);
+		vf_pool_run ((12750000 + 8191) / 8192, item_crit, NULL, 0);
+		vf_outcome ("critical_state_maxv_values", 12750000);
 		vf_outcome ("band_maxv_values", nblk * 4096); vf_outcome ("band_states", BAND);
 	}
 	vf_stat_add (st_exec, vf_stat_get (st_trans));
